@@ -66,7 +66,10 @@ def install_monitor():
     if _mon["installed"]:
         return
     import py_ecc.bls.ciphersuites as cs
-    real = cs.pairing
+    real = getattr(cs, "pairing", None)
+    if real is None:
+        raise HarnessError("py_ecc.bls.ciphersuites no longer calls a module-level 'pairing': the pairing-argument "
+                           "monitor of C04 has to be re-anchored")
 
     def monitored(Q, Pt, *a, **k):
         try:
